@@ -82,7 +82,22 @@ type chainStruct struct {
 
 type chainUnmapped struct{ _ int }
 
-type chainMapped struct{ v int }
+// chainMapped: a value a handler maps BY ITS CONCRETE TYPE. It happens to implement http.ResponseWriter (a capture
+// buffer): the services of the request are registered under their interface types, so looking one of them up
+// (Recovery asks for the http.ResponseWriter) must keep finding the request's own writer, never this object.
+type chainMapped struct {
+	v   int
+	hdr http.Header
+}
+
+func (m *chainMapped) Header() http.Header {
+	if m.hdr == nil {
+		m.hdr = http.Header{}
+	}
+	return m.hdr
+}
+func (m *chainMapped) Write(b []byte) (int, error) { return len(b), nil }
+func (m *chainMapped) WriteHeader(int)             {}
 
 func parseChainHandler(l []string) (chainHandler, bool) {
 	if len(l) == 2 && l[0] == "H" && (l[1] == "r" || l[1] == "u") {
